@@ -1019,12 +1019,34 @@ class _AbstractType:
         return f'<abstract {self.name}>'
 
 
+_FLT = z3.DeclareSort('PyFloat')
+_fpos = z3.Function('float_is_positive', _FLT, z3.BoolSort())
+_fnan = z3.Function('float_is_nan', _FLT, z3.BoolSort())
+
+
 class SFloat:
-    """a float known only through uninterpreted functions (struct contracts)"""
+    """a Python float known only through uninterpreted functions (the assumed contract of struct, see floats.py)"""
 
     def __init__(self, term, note=''):
         self.term = term
         self.note = note
+
+    @staticmethod
+    def named(name):
+        return SFloat(z3.Const(name, _FLT))
+
+    def __gt__(self, o):
+        if isinstance(o, (int, float)) and o == 0:
+            return sym.mk_bool(_fpos(self.term))
+        raise Unsupported("comparison of a symbolic float")
+
+    def __lt__(self, o):
+        raise Unsupported("comparison of a symbolic float")
+
+    __ge__ = __le__ = __lt__
+
+    def isnan(self):
+        return sym.mk_bool(_fnan(self.term))
 
 
 def _digits(kind, x):
